@@ -40,16 +40,23 @@ Proof. vm_compute. reflexivity. Qed.
 Theorem C27_lock_sections_flat : nested_submux_acquisitions = [].
 Proof. reflexivity. Qed.
 
-(* (a), full quantifier: any number of Subscribe / Forget(Cancel) / recreate / pause / resume threads, any publish
+(* ... and the loop does not hold subMux while it hands a notification to the application (the model's LNotifying):
+   no call of notifySubscription / Subscription.notify is made with subMux held *)
+Theorem C27_notifies_outside_lock : notifies_under_submux = [].
+Proof. reflexivity. Qed.
+
+(* (a), full quantifier: any number of Subscribe / Forget(Cancel) / recreate / pause / resume threads and of consumer
+   goroutines that call the API before they receive from Notifs, any publish
    script, any interleaving. Every unfinished call can take a step, or waits for subMux whose holder can take a step;
    the loop's own pause signal never blocks; when the loop wants subMux it is free or its holder can step; hence no
    deadlock. *)
 Theorem C27_no_call_blocks_forever :
   forall prog scr s, reachable sub_params (init sub_params scr prog) s ->
-    (forall i p, nth_error (threads s) i = Some p -> p <> Done ->
+    (forall i p, nth_error (threads s) i = Some p -> p <> Done -> p <> ConsumeRecv ->
        can_step_api sub_params s i = true \/ exists j, mux s = Some j /\ j <> i /\ can_step_api sub_params s j = true)
     /\ (loop s = LWantPause -> step_loop sub_params s SelfPause <> None)
-    /\ (loop s = LWantLock -> step_loop sub_params s Handle <> None \/ exists j, mux s = Some j /\ can_step_api sub_params s j = true)
+    /\ (loop s = LWantLock \/ (exists id, loop s = LWantLockData id) ->
+          step_loop sub_params s Handle <> None \/ exists j, mux s = Some j /\ can_step_api sub_params s j = true)
     /\ deadlocked sub_params s = false.
 Proof.
   intros prog scr s Hr.
@@ -126,6 +133,7 @@ Proof. vm_compute. reflexivity. Qed.
 
 Print Assumptions C27_signals_do_not_block.
 Print Assumptions C27_lock_sections_flat.
+Print Assumptions C27_notifies_outside_lock.
 Print Assumptions C27_no_call_blocks_forever.
 Print Assumptions C27_protocol_as_proved.
 Print Assumptions C27_no_lost_resume.
